@@ -17,6 +17,11 @@ macro "codec_simp" " [" ts:Lean.Parser.Tactic.simpLemma,* "]" : tactic =>
       J.isList, J.isDict, J.isNone, J.isNumber, J.isStr, J.isInt, J.isBool, kId, kMethod, kJsonrpc, kParams,
       kResult, kError, kCode, kMessage, s20, s10, $ts,*])
 
+/-- evaluate lookups in literal member lists -/
+macro "lk" : tactic =>
+  `(tactic| simp +decide [lookup_cons, lookup_nil, J.hasKey, responseMessagePayload, responsePayload,
+      errorPayload, errorObj, kJsonrpc, kMethod, kParams, kId, kResult, kError, kCode, kMessage, s20])
+
 /-- request arguments: a list (or tuple) or a dict -/
 def Args (a : J) : Prop := a.isList = true ∨ a.isDict = true
 /-- a JSON number: `int` or `float`, not `bool` -/
